@@ -194,7 +194,8 @@ def c11(tier, seed):
     """access-trace correspondence of the word-level kernels (vlib/tracecheck.py)"""
     from . import tracecheck as T
     viol = []
-    cases = T.gen_cases(seed, quick=(tier == 'quick'))
+    from . import tracecases2 as T2
+    cases = T.gen_cases(seed, quick=(tier == 'quick')) + T2.gen_more(seed, tier == 'quick')
     r = T.run(cases)
     for o in r['oob'][:5]:
         viol.append(dict(kind='access-outside-operand', what=o['what'], case=o['case'], signature='c11-trace-' + o['case'].split()[0],
